@@ -116,7 +116,7 @@ def script_cases(rnd, quick):
             stack = [sign(rnd, sk, tx, idx, code, ht, segwit, amount)]
             shape = shape + "+" + which
         # corruption
-        c = rnd.randrange(16)
+        c = rnd.randrange(19)
         if c == 0 and stack:
             j = rnd.randrange(len(stack)); b = bytearray(stack[j])
             if b:
@@ -149,6 +149,27 @@ def script_cases(rnd, quick):
                 newr = b"\x00" + r0
                 body = b"\x02" + bytes([len(newr)]) + newr + s_[:-1]
                 stack[-1] = b"\x30" + bytes([len(body)]) + body + s0[-1:]; label = "der-padding"
+            except Exception:
+                pass
+        elif c in (16, 17, 18) and stack and len(stack[-1]) > 9:
+            # structure-aware re-encodings of a VALID signature that only the lax DER parser accepts: R and/or S padded with
+            # 1..3 zero bytes, optionally the high-S twin; decisive only with DERSIG, LOW_S and STRICTENC all off
+            s0 = stack[-1]
+            try:
+                rl = s0[3]; r0 = s0[4:4 + rl]; sl = s0[5 + rl]; sv0 = s0[6 + rl:6 + rl + sl]; htb = s0[6 + rl + sl:]
+                ri = int.from_bytes(r0, "big"); si = int.from_bytes(sv0, "big")
+                if rnd.random() < 0.3: si = P.N - si
+                def enc(v, pad):
+                    b = v.to_bytes((v.bit_length() + 8) // 8 or 1, "big")
+                    return b"\x00" * pad + b
+                pr, ps = rnd.choice(((0, 1), (0, 2), (0, 3), (1, 0), (2, 0), (3, 0), (1, 2), (2, 2)))
+                rb_, sb_ = enc(ri, pr), enc(si, ps)
+                body = b"\x02" + bytes([len(rb_)]) + rb_ + b"\x02" + bytes([len(sb_)]) + sb_
+                stack[-1] = b"\x30" + bytes([len(body)]) + body + htb
+                fl = R.STD
+                for nme in ("DERSIG", "LOW_S", "STRICTENC") + (("NULLFAIL",) if rnd.random() < 0.5 else ()):
+                    fl &= ~(1 << FB[nme])
+                label = "lax-der-r%d-s%d" % (pr, ps)
             except Exception:
                 pass
         elif c == 12 and shape in ("checksig", "checksigverify"):
